@@ -22,7 +22,7 @@ MANIFEST = {
     'note': 'Relational oracle against single-target executions; trusts the block splitter (80-dash rule) and json.loads.',
     'technique': 'fault injection into multi-target runs with boundary monitoring (block structure, status rank) and a relational oracle against single-target executions',
 }
-FAILS = ['badname', 'unresolvable', 'refused', 'refused-top-port', 'silent', 'early-close', 'close-before-banner', 'garbage-banner', 'bad-block-size', 'bad-crc', 'truncated-kexinit', 'wrong-first-packet', 'probe-garbage', 'probe-wrong-type', 'probe-malformed-reply']
+FAILS = ['badname', 'unresolvable', 'refused', 'refused-top-port', 'silent', 'early-close', 'close-before-banner', 'garbage-banner', 'bad-block-size', 'all-padding', 'probe-all-padding', 'bad-crc', 'truncated-kexinit', 'wrong-first-packet', 'probe-garbage', 'probe-wrong-type', 'probe-malformed-reply']
 HEALTHY3 = ['clean', 'terrapin', 'rsa1024']
 RANK = {0: 0, 2: 1, 3: 2, 1: 3, 255: 4}
 _fail_status = {}
